@@ -372,6 +372,15 @@ func c05Universe() []string {
 		"<animate attributeName=\"opacity\" dur=\"2s\"/>", "<set attributeName=x to=y>", "<animate attributename=onclick>", "<svg><animate attributeName='href' values='x'/></svg>"} {
 		add(s)
 	}
+	// pairs that collide under 32-bit FNV-1a / FNV-1 / CRC-32 at equal length (testdata/collisions.json)
+	for _, cp := range loadCollisions() {
+		add(cp.A)
+		add(cp.B)
+		if strings.HasPrefix(cp.A, "javascript:") {
+			add("<a href=\"" + cp.A + "\">")
+			add("<a href=\"" + cp.B + "\">")
+		}
+	}
 	for _, f := range gen.FragSQL {
 		add("1 " + f + " 1")
 	}
@@ -410,7 +419,7 @@ func TestC05(t *testing.T) {
 	join := func(xs []string) string { return strings.Join(xs, histSep) }
 
 	// (1) order children: rotations / reversals / rapid-drawn permutations of the universe
-	p = c.rec.NewPart("order_children", "brand-new processes evaluating the whole universe in rotated, reversed and stride-permuted orders", false, true, "")
+	p = c.rec.NewPart("order_children", "brand-new processes evaluating the whole universe in rotated, reversed and stride-permuted orders; two-step histories (both orders) of input pairs that collide under FNV-1a-32 / FNV-1-32 / CRC-32 at equal length", false, true, "")
 	var orders []ev.Case
 	nOrd := pick(12, 64)
 	for k := 0; k < nOrd; k++ {
@@ -428,6 +437,13 @@ func TestC05(t *testing.T) {
 			}
 		}
 		orders = append(orders, ev.Case{Kind: "order", In: join(o)})
+	}
+	for _, cp := range loadCollisions() {
+		orders = append(orders, ev.Case{Kind: "order", In: join([]string{cp.B, cp.A})}, ev.Case{Kind: "order", In: join([]string{cp.A, cp.B})})
+		if strings.HasPrefix(cp.A, "javascript:") {
+			wa, wb := "<a href=\""+cp.A+"\">", "<a href=\""+cp.B+"\">"
+			orders = append(orders, ev.Case{Kind: "order", In: join([]string{wb, wa})}, ev.Case{Kind: "order", In: join([]string{wa, wb})})
+		}
 	}
 	c.ParRange(p, int64(len(orders)), func(w *Worker, i int64) { w.JudgeSlow(orders[i]) })
 
